@@ -227,22 +227,40 @@ def io_obligations(P):
                             o.detail = "on a path that rests on a guessed branch (%s): %s" % (guessed[0][:80], o.detail)
             if z0:
                 obs.append(req_ob("R-NC-FIELDS", site, "a configured roughness length is written per step %s" % tag, wrote_z0, key={"var": "z0"}))
-    # load
+    # load: interpreted with a recording xarray
     m = P.module("bldfm.io")
     fn = m.functions.get("load_footprints_from_netcdf")
     site = "src/bldfm/io.py::load_footprints_from_netcdf"
     if fn is None:
         obs.append(req_ob("R-NC-LOAD", site, "loader exists", None))
     else:
-        opens = [n for n in ast.walk(fn) if isinstance(n, ast.Call) and (dotted_name(n.func) or "").split(".")[-1] in ("open_dataset", "load_dataset")]
-        ok = len(opens) == 1 and not [k for k in opens[0].keywords if k.arg in ("mask_and_scale", "decode_cf", "decode_times", "drop_variables")]
-        rets = [n for n in ast.walk(fn) if isinstance(n, ast.Return) and n.value is not None]
-        names = set()
-        for n in ast.walk(fn):
-            if isinstance(n, ast.Assign) and n.value in opens:
-                names |= {t.id for t in n.targets if isinstance(t, ast.Name)}
-        okr = bool(rets) and all((isinstance(r.value, ast.Name) and r.value.id in names) or r.value in opens for r in rets)
-        obs.append(req_ob("R-NC-LOAD", site, "the file is opened once with default decoding and returned as opened", ok and okr))
+        opened = []
+
+        def open_ds(I, args, kwargs, node):
+            o = Opaque("opened-dataset", {"args": list(args), "kwargs": dict(kwargs)})
+            opened.append(o)
+            return o
+
+        def same(I, args, kwargs, node):
+            return I.cur_callee.bound  # .load() / .compute() / .persist() return the same data
+
+        fp = alg.sym("filepath")
+        stubs = {"xarray.open_dataset": open_ds, "xarray.load_dataset": open_ds, "pathlib.Path": lambda I, a, k, n: Opaque("Path", {"arg": a[0] if a else None}),
+                 "opened-dataset.load": same, "opened-dataset.compute": same, "opened-dataset.persist": same,
+                 "opened-dataset.__enter__": same, "opened-dataset.close": lambda I, a, k, n: None}
+        try:
+            res = CM.run_paths(P, "bldfm.io", "load_footprints_from_netcdf", [fp], {}, stubs=stubs)
+        except AnalysisError as e:
+            res = None
+            obs.append(req_ob("R-NC-LOAD", site, "the loader is interpretable", None, detail=str(e)))
+        if res is not None:
+            rets = [r for r in res if r.kind == "return"]
+            others = [r for r in res if r.kind != "return" and not (r.kind == "raise" and "FileNotFoundError" in (r.raise_desc or ""))]
+            ok = bool(rets) and not others and len(opened) >= 1
+            decode = [k for o in opened for k in o.attrs["kwargs"] if k in ("mask_and_scale", "decode_cf", "decode_times", "drop_variables", "decode_coords", "use_cftime")]
+            okr = bool(rets) and all(any(r.value is o for o in opened) for r in rets)
+            obs.append(req_ob("R-NC-LOAD", site, "the file is opened with default decoding and returned as opened", ok and okr and not decode,
+                              detail=None if ok and okr and not decode else "paths %s; decoding options %s; returns %s" % ([(r.kind, r.raise_desc) for r in res][:3], decode, [repr(r.value)[:60] for r in rets][:2])))
     return obs
 
 
